@@ -34,10 +34,14 @@ Inductive prog :=
                                          votesChanged in the NEO cache, GAS claims minted to both sides *)
 | SetFee (v : N)                      (* Policy.setFeePerByte: contract storage + native cache *)
 | Seq (p q : prog)
-| Call (c fl : N) (body : prog)       (* System.Contract.Call of contract c with requested call flags fl *)
+| CallV (via_token : bool) (c fl : N) (body : prog)
+                                      (* call of contract c with requested call flags fl: System.Contract.Call, or the CALLT
+                                         opcode through a method token of the NEF (via_token); the semantics ignores the form *)
 | Try (b : prog) (c f : option prog)  (* TRY body [catch] [finally] *)
 | Throw
 | Abort.
+
+Notation Call := (CallV false).
 
 Definition popt (P : prog -> Prop) (o : option prog) : Prop :=
   match o with Some x => P x | None => True end.
@@ -54,7 +58,7 @@ Section ProgInd.
   Hypothesis HMoveNeo : forall to amt cb, P cb -> P (MoveNeo to amt cb).
   Hypothesis HSetFee : forall v, P (SetFee v).
   Hypothesis HSeq : forall p q, P p -> P q -> P (Seq p q).
-  Hypothesis HCall : forall c fl body, P body -> P (Call c fl body).
+  Hypothesis HCall : forall via c fl body, P body -> P (CallV via c fl body).
   Hypothesis HTry : forall b c f, P b -> popt P c -> popt P f -> P (Try b c f).
   Hypothesis HThrow : P Throw.
   Hypothesis HAbort : P Abort.
@@ -66,7 +70,7 @@ Section ProgInd.
     | MoveNeo to amt cb => HMoveNeo to amt cb (prog_ind' cb)
     | SetFee v => HSetFee v
     | Seq p q => HSeq p q (prog_ind' p) (prog_ind' q)
-    | Call c fl body => HCall c fl body (prog_ind' body)
+    | CallV via c fl body => HCall via c fl body (prog_ind' body)
     | Try b c f => HTry b c f (prog_ind' b)
                      (match c as o return popt P o with Some x => prog_ind' x | None => I end)
                      (match f as o return popt P o with Some x => prog_ind' x | None => I end)
@@ -378,7 +382,7 @@ Fixpoint exec (pol : policy) (p : prog) (cid fl : N) (it : bool) (s : mstate) {s
       | Normal s1 => exec pol q cid fl it s1
       | r => r
       end
-  | Call c f body =>
+  | CallV _ c f body =>
       if has fl fR && has fl fC && (f <=? fAll) && is_contract c then
         let fe := N.land fl f in
         let w := wrapped it fe in
@@ -491,7 +495,7 @@ Fixpoint exec_h (pol : policy) (p : prog) (cid fl : N) (hs : list hstate) (s : m
       | Normal s1 => exec_h pol q cid fl hs s1
       | r => r
       end
-  | Call c f body =>
+  | CallV _ c f body =>
       if has fl fR && has fl fC && (f <=? fAll) && is_contract c then
         let fe := N.land fl f in
         let w := wrapped (has_try pol hs) fe in
